@@ -71,7 +71,31 @@ class Check(PropertyCheck):
                     "input_hex": c.data.hex(), "n": r["spec"].n, "seed": r["spec"].seed, "in_granul": r["spec"].ig,
                     "out_granul": r["spec"].og, "flavor": r["spec"].flavor, "rc": r["rc"], "stderr": r["err"][-800:],
                     "kind": "run"}))
-        self.notes.append("direct: %d runs compared with the known plain text and with `-n1` (no hooks)" % len(res))
+        # thousands of small valid streams with one spurious block magic each (in the symbol bitmap): speculation is busy all the
+        # time; the output must be the plain text for every worker count and schedule seed
+        from concurrent.futures import ThreadPoolExecutor
+        exe = vlib.build_lbzip2("rel")
+        c = sp.gen_magic_bitmaps(self.rng, 600 if self.tier == "quick" else 3000)
+        confs = [(n, sd) for n in (2, 3, 4, 8) for sd in ([None, self.rng.below(100000)] if self.tier == "quick" else
+                                                          [None] + [self.rng.below(100000) for _ in range(5)])]
+
+        def one(cf):
+            n, sd = cf
+            return sp.run_lbzip2(exe, c.data, ["-dc", "-n%d" % n], env=sp.hook_env(seed=sd), timeout=60)
+        with ThreadPoolExecutor(max_workers=max(2, vlib.NCPU // 2)) as ex:
+            outs = list(ex.map(one, confs))
+        for (n, sd), (rc, out, err) in zip(confs, outs):
+            if (rc != 0 or out != c.plain) and "spurious-candidates" not in seen:
+                seen.add("spurious-candidates")
+                viols.append(Violation("spurious-candidates-change-result",
+                                       "valid input (%d small streams whose symbol bitmaps contain the block magic), `lbzip2 -dc -n%d` (H1 seed %s): "
+                                       "rc=%s, output %s the sequential decoding%s" % (
+                                           len(c.data), n, sd, rc, "equals" if out == c.plain else "differs from",
+                                           (", stderr: " + (err.decode("latin-1") if isinstance(err, bytes) else str(err))[-200:]) if rc else ""),
+                                       {"input_hex": c.data.hex(), "n": n, "seed": sd, "in_granul": None, "out_granul": None, "flavor": "rel",
+                                        "rc": rc, "kind": "run"}))
+        self.notes.append("direct: %d runs compared with the known plain text and with `-n1` (no hooks); %d runs on a "
+                          "spurious-candidate stream file" % (len(res), len(confs)))
         return viols
 
     def search(self):
